@@ -237,7 +237,7 @@ fn maybe_format(input: &str) -> Option<(LeftToParse<'_>, MaybeFormat<'_>)> {
 ///
 /// # Grammar
 ///
-/// [`format`]` := '{' [`[`argument`]`] [':' `[`format_spec`]`] '}'`
+/// [`format`]` := '{' [`[`argument`]`] [':' `[`format_spec`]`] [ws]* '}'`
 ///
 /// # Example
 ///
@@ -259,6 +259,9 @@ pub(crate) fn format(input: &str) -> Option<(LeftToParse<'_>, Format<'_>)> {
         |i| Some((i, None)),
         map(format_spec, |(i, s)| (i, Some(s))),
     )(input)?;
+
+    // Whitespace is allowed before the closing brace: `[ws]* '}'`.
+    let (input, _) = take_while0(check_char(|c| c.is_whitespace()))(input);
 
     let input = char('}')(input)?;
 
@@ -452,7 +455,10 @@ fn type_(input: &str) -> Option<(&str, Type)> {
         &mut map(char('b'), |i| (i, Type::Binary)),
         &mut map(char('e'), |i| (i, Type::LowerExp)),
         &mut map(char('E'), |i| (i, Type::UpperExp)),
-        &mut map(lookahead(char('}')), |i| (i, Type::Display)),
+        &mut map(
+            lookahead(check_char(|c| c == '}' || c.is_whitespace())),
+            |i| (i, Type::Display),
+        ),
     ])(input)
 }
 
